@@ -89,9 +89,18 @@ class VExecutor(Executor):
 
     def _execute_command(self, subroutine_id, command):
         self.current_cmd = command          # what was being executed if a fault is raised
+        # a subroutine that does not end (a clobbered loop counter) must not hang the check
+        self.exec_count = getattr(self, "exec_count", 0) + 1
+        if self.exec_count > getattr(self, "exec_limit", 400000):
+            self.exec_count = 0
+            raise Runaway(f"more than {getattr(self, 'exec_limit', 400000)} instructions executed on this controller without the subroutine ending")
         yield from super()._execute_command(subroutine_id, command)
         if self.step_mode:
             yield STEP
+
+
+class Runaway(RuntimeError):
+    pass
 
 
 def fresh_executor(name="verif", node_id=0, meas_script=None) -> VExecutor:
@@ -514,6 +523,8 @@ class ControllerRun:
         self.stack = RecordingStack()
         self.ctrl.network_stack = self.stack
         self.gens: Dict[int, Any] = {}
+        self.zombies: Dict[int, Any] = {}      # subroutines of applications that were stopped while suspended inside an instruction
+        self.progname: Dict[int, str] = {}
         self.subid: Dict[int, int] = {}
         self.msg_id = 0
         clss = {c.mnemonic: c for c in isa.classes("vanilla")}
@@ -547,10 +558,11 @@ class ControllerRun:
     def begin(self, a, p):
         sub = Subroutine(instructions=[self._mk(i) for i in ctrl_lib(a)[p]], app_id=a, netqasm_version=(0, 0))
         self.subid.pop(a, None)          # assigned by the executor when the generator first runs
+        self.progname[a] = p
         self.gens[a] = self._send(_M.SubroutineMessage(subroutine=sub))
 
-    def step(self, a):
-        """'stepped' | 'blocked' | 'finished' | 'fault'"""
+    def step(self, a, mid=False):
+        """'stepped' | 'blocked' | 'finished' | 'fault' (| 'mid': suspended at a yield inside an instruction, only if asked for)"""
         g = self.gens[a]
         if a not in self.subid:
             self.subid[a] = self.ex._next_subroutine_id
@@ -568,6 +580,31 @@ class ControllerRun:
                 return "stepped"
             if y == WAIT:
                 return "blocked"
+            if mid:
+                return "mid"
+
+    def abort(self, a):
+        """the application is stopped while its subroutine is suspended inside an instruction (a simulator hook yielded):
+        'aborted', or what step() reports if the instruction has no such suspension point"""
+        r = self.step(a, mid=True)
+        if r != "mid":
+            return r
+        self.zombies[a] = self.gens.pop(a)
+        self.stop(a)
+        return "aborted"
+
+    def zombie(self, a):
+        """the orphaned subroutine of a stopped application is resumed until it ends (normally it faults at once)"""
+        g = self.zombies.pop(a)
+        for _ in range(200):
+            try:
+                next(g)
+            except StopIteration:
+                return "finished"
+            except Exception as exc:
+                self.last_fault = f"{type(exc).__name__}: {str(exc).splitlines()[0]}"[:160]
+                return "fault"
+        return "running"
 
     def deliver(self, a, mode="alloc"):
         """mode 'alloc': the stack reserves the qubit through the executor's allocator (as SquidASM does);
@@ -628,8 +665,11 @@ class ControllerRun:
         acts = []
         pend_apps = {r.purpose_id for r in ex._pending_epr_responses}
         for a in app_ids:
+            if a in self.zombies:
+                acts.append(("zombie", a))
             if a not in apps:
-                acts += [("init", a, n) for n in um_sizes]
+                if a not in self.zombies:          # (a new incarnation of the id while the old subroutine is still around is not explored)
+                    acts += [("init", a, n) for n in um_sizes]
                 continue
             active = a in self.gens
             has_req = len(ex._epr_create_requests.get((1, a), [])) > 0
@@ -642,6 +682,15 @@ class ControllerRun:
                     acts.append(("begin", a, p))
             else:
                 acts.append(("step", a))
+                # the host may give up on an application whose subroutine is suspended inside a qfree (the reset of the
+                # physical qubit takes time): offered when the next instruction is a qfree of an allocated qubit
+                prog = ctrl_lib(a)[self.progname[a]]
+                pc = ex._program_counters.get(self.subid.get(a), 0) if a in self.subid else 0
+                if not has_req and a not in pend_apps and pc < len(prog) and prog[pc]["mn"] == "qfree":
+                    um = ex._qubit_unit_modules[a]
+                    v = prog[pc]["ops"][0] - 32
+                    if v < len(um) and um[v] is not None:
+                        acts.append(("abort", a))
             if has_req and a not in pend_apps:
                 acts.append(("deliver", a, "alloc"))
                 um = ex._qubit_unit_modules[a]
@@ -668,6 +717,16 @@ class ControllerRun:
                 ev.update(app=act[1])
                 if self.step(act[1]) == "blocked":
                     return None
+            elif act[0] == "abort":
+                ev.update(app=act[1])
+                r = self.abort(act[1])
+                if r == "blocked":
+                    return None
+                if r != "aborted":
+                    ev["a"] = "step"           # the instruction has no suspension point: an ordinary step
+            elif act[0] == "zombie":
+                ev.update(app=act[1])
+                self.zombie(act[1])
             elif act[0] == "deliver":
                 ev.update(app=act[1], phys=-1)
                 self.deliver(act[1], act[2] if len(act) > 2 else "alloc")
@@ -683,6 +742,22 @@ class ControllerRun:
         return ev
 
 
+def controller_script(acts, app_ids=(0, 1, 2), um_sizes=(1, 2, 3, 4)):
+    """a fixed schedule; an action the specification's guards do not offer at that point is skipped"""
+    run = ControllerRun()
+    evs = []
+    for a in acts:
+        if tuple(a) not in [tuple(x) for x in run.candidates(app_ids, um_sizes)]:
+            continue
+        ev = run.apply(tuple(a))
+        if ev is None:
+            continue
+        evs.append(ev)
+        if ev["err"]:
+            break
+    return evs
+
+
 def controller_walk(seed: int, length: int, app_ids=(0, 1), um_sizes=(1, 2)):
     import random as _r
     rng = _r.Random(seed)
@@ -692,7 +767,7 @@ def controller_walk(seed: int, length: int, app_ids=(0, 1), um_sizes=(1, 2)):
         acts = run.candidates(app_ids, um_sizes)
         # bias towards progress: stepping active subroutines
         rng.shuffle(acts)
-        acts.sort(key=lambda a: 0 if a[0] in ("step", "deliver", "retry") and rng.random() < 0.6 else 1)
+        acts.sort(key=lambda a: 0 if a[0] in ("step", "deliver", "retry", "zombie") and rng.random() < 0.6 else 1)
         ev = None
         for a in acts:
             ev = run.apply(a)
@@ -825,6 +900,7 @@ class VConnection(BaseNetQASMConnection):
         self.sent.append(raw_msg)
         msg = _M.deserialize_host_msg(raw_msg)
         self._msg_id += 1
+        self.ex.exec_count, self.ex.exec_limit = 0, 100000
         gen = self.ctrl.handle_netqasm_message(msg_id=self._msg_id, msg=msg)
         idle = 0
         try:
